@@ -24,7 +24,7 @@ ASSUMPTIONS = ['task computations are deterministic functions of declared parame
                'parameter mode only; reference semantics as in DESIGN.md Appendix A']
 BUDGET = {'quick': 75, 'thorough': 1500}
 WANT = {'C01', 'C08'}
-OPTS = {'max_sessions': 3, 'max_chains': 3, 'max_requests': 5, 'p_inspect': 0.1, 'p_force': 0.12, 'p_reset': 0.05, 'p_fault': 0.08, 'p_spawn': 0.15}
+OPTS = {'max_sessions': 3, 'max_chains': 3, 'max_requests': 5, 'p_inspect': 0.1, 'p_force': 0.12, 'p_reset': 0.05, 'p_poison': 0.25, 'p_fault': 0.08, 'p_spawn': 0.15}
 
 
 def run_history_case(rng, res: CaseResult, want, opts, feat=None, n_variants=3, at_most_once=False, name_mode=False):
